@@ -205,3 +205,184 @@ def main_loop(top, contains_call):
                 items = items[1:]
         return i, cond, items
     return None, None, None
+
+
+# ---------------------------------------------------------------- helper inlining
+def _subst(node, pmap, line=None):
+    """deep copy of node with references to parameters replaced by the argument expressions; every copied node is given
+    the line of the call site, so that rules ordering events by line see the helper's body where the call stands"""
+    if not isinstance(node, dict):
+        return node
+    if node.get('kind') == 'DeclRefExpr' and (node.get('referencedDecl') or {}).get('id') in pmap:
+        return {'kind': 'ParenExpr', 'type': node.get('type'), 'inner': [copy.deepcopy(pmap[node['referencedDecl']['id']])], '_line': line or node.get('_line')}
+    out = dict(node)
+    if line is not None and '_line' in out:
+        out['_line'] = line
+    if 'inner' in node:
+        out['inner'] = [_subst(c, pmap, line) for c in node['inner']]
+    # *(&x) -> x
+    if out.get('kind') == 'UnaryOperator' and out.get('opcode') == '*':
+        a = strip(out['inner'][0], casts=False)
+        if a.get('kind') == 'UnaryOperator' and a.get('opcode') == '&':
+            return a['inner'][0]
+    if out.get('kind') == 'MemberExpr' and out.get('isArrow'):
+        a = strip(out['inner'][0], casts=False)
+        if a.get('kind') == 'UnaryOperator' and a.get('opcode') == '&':
+            out['inner'] = [a['inner'][0]]
+            out['isArrow'] = False
+    return out
+
+
+def _returns(node):
+    return [x for x in walk(node) if x.get('kind') == 'ReturnStmt']
+
+
+def _helper_shape(h):
+    """('expr', E) for `return E;`, ('void', [stmts]) for a body without returns (after normalisation),
+    ('value', [stmts], E) for statements followed by one final `return E;`, else None"""
+    nb = None
+    for c in normalised_function(h).get('inner', []):
+        if c.get('kind') == 'CompoundStmt':
+            nb = c
+    if nb is None:
+        return None
+    items = list(nb.get('inner', []))
+    if len(items) == 1 and items[0].get('kind') == 'ReturnStmt' and items[0].get('inner'):
+        return ('expr', items[0]['inner'][0])
+    rets = _returns(nb)
+    if not rets:
+        return ('void', items)
+    if len(rets) == 1 and items and items[-1] is rets[0]:
+        if rets[0].get('inner'):
+            return ('value', items[:-1], rets[0]['inner'][0])
+        return ('void', items[:-1])
+    return None
+
+
+def inline_new_helpers(tu, fn, is_new, depth=3):
+    """copy of fn in which calls of file-local helpers selected by is_new(name) are replaced by their bodies. Used by rules
+    that look for a shape inside one function: a block that a clean-up moved into a new static helper is seen where it was."""
+    from .cfront import callee_name, call_args, params
+    helpers = {}
+    for name, h in tu.funcs.items():
+        if name != fn.get('name') and is_new(name) and h.get('storageClass') == 'static':
+            sh = _helper_shape(h)
+            if sh is not None:
+                helpers[name] = (h, sh)
+    if not helpers:
+        return fn
+
+    def pmap_for(h, call):
+        ps = params(h)
+        args = call_args(call)
+        if len(ps) != len(args):
+            return None
+        return {p['id']: a for p, a in zip(ps, args) if p.get('id')}
+
+    def expr_inline(node):
+        if not isinstance(node, dict):
+            return node
+        out = dict(node)
+        if 'inner' in node:
+            out['inner'] = [expr_inline(c) for c in node['inner']]
+        if out.get('kind') == 'CallExpr' and callee_name(out) in helpers and helpers[callee_name(out)][1][0] == 'expr':
+            h, sh = helpers[callee_name(out)]
+            pm = pmap_for(h, out)
+            if pm is not None:
+                return {'kind': 'ParenExpr', 'type': out.get('type'), 'inner': [_subst(sh[1], pm, out.get('_line'))], '_line': out.get('_line')}
+        return out
+
+    def stmt_list(items):
+        res = []
+        for st in items:
+            st = block(st)
+            s = strip(st) if st.get('kind') in ('ParenExpr', 'ImplicitCastExpr') else st
+            call = None
+            how = None
+            if s.get('kind') == 'CallExpr' and callee_name(s) in helpers:
+                call, how = s, 'stmt'
+            elif s.get('kind') == 'BinaryOperator' and s.get('opcode') == '=' and strip(s['inner'][1], casts=True).get('kind') == 'CallExpr' and callee_name(strip(s['inner'][1], casts=True)) in helpers:
+                call, how = strip(s['inner'][1], casts=True), 'assign'
+            elif s.get('kind') == 'ReturnStmt' and s.get('inner') and strip(s['inner'][0], casts=True).get('kind') == 'CallExpr' and callee_name(strip(s['inner'][0], casts=True)) in helpers:
+                call, how = strip(s['inner'][0], casts=True), 'return'
+            elif s.get('kind') == 'DeclStmt' and len([d for d in s.get('inner', []) if d.get('kind') == 'VarDecl']) == 1:
+                d = [d for d in s['inner'] if d.get('kind') == 'VarDecl'][0]
+                ini = [c for c in d.get('inner', []) if c.get('kind') not in ('FullComment',)]
+                if ini and 'init' in d and strip(ini[-1], casts=True).get('kind') == 'CallExpr' and callee_name(strip(ini[-1], casts=True)) in helpers:
+                    call, how = strip(ini[-1], casts=True), 'decl'
+            if call is not None:
+                h, sh = helpers[callee_name(call)]
+                pm = pmap_for(h, call)
+                if pm is not None and sh[0] in ('void', 'value') and not (sh[0] == 'void' and how != 'stmt'):
+                    cl = call.get('_line') or s.get('_line') or st.get('_line')
+                    body_items = [_subst(x, pm, cl) for x in sh[1]]
+                    res.extend(stmt_list(body_items))
+                    if sh[0] == 'value':
+                        val = _subst(sh[2], pm, cl)
+                        if how == 'assign':
+                            n2 = dict(s)
+                            n2['inner'] = [s['inner'][0], val]
+                            res.append(n2)
+                        elif how == 'return':
+                            n2 = dict(s)
+                            n2['inner'] = [val]
+                            res.append(n2)
+                        elif how == 'decl':
+                            d2 = dict(d)
+                            d2['inner'] = [c for c in d.get('inner', []) if c.get('kind') in ('FullComment',)] + [val]
+                            n2 = dict(s)
+                            n2['inner'] = [d2 if x is d else x for x in s['inner']]
+                            res.append(n2)
+                    continue
+            res.append(expr_inline(st) if st.get('kind') not in ('CompoundStmt', 'IfStmt', 'ForStmt', 'WhileStmt', 'DoStmt', 'SwitchStmt', 'CaseStmt', 'DefaultStmt', 'LabelStmt') else st)
+        return res
+
+    def block(node):
+        k = node.get('kind')
+        if k == 'CompoundStmt':
+            n2 = dict(node)
+            n2['inner'] = stmt_list(list(node.get('inner', [])))
+            return n2
+        if k in ('IfStmt', 'ForStmt', 'WhileStmt', 'DoStmt', 'SwitchStmt', 'CaseStmt', 'DefaultStmt', 'LabelStmt'):
+            n2 = dict(node)
+            new_inner = []
+            for c in node.get('inner', []):
+                if isinstance(c, dict) and c.get('kind') in ('CompoundStmt', 'IfStmt', 'ForStmt', 'WhileStmt', 'DoStmt', 'SwitchStmt', 'CaseStmt', 'DefaultStmt', 'LabelStmt'):
+                    new_inner.append(block(c))
+                elif isinstance(c, dict) and c.get('kind') and (c.get('kind').endswith('Stmt') or c.get('kind') in ('CallExpr', 'BinaryOperator', 'CompoundAssignOperator', 'UnaryOperator')) and k in ('IfStmt', 'ForStmt', 'WhileStmt', 'DoStmt', 'CaseStmt', 'DefaultStmt', 'LabelStmt') and c is not node['inner'][0]:
+                    # a single statement as a branch: wrap so that a helper body can be spliced
+                    w = stmt_list([c])
+                    new_inner.append(w[0] if len(w) == 1 else {'kind': 'CompoundStmt', 'inner': w, '_line': c.get('_line')})
+                else:
+                    new_inner.append(expr_inline(c) if isinstance(c, dict) else c)
+            n2['inner'] = new_inner
+            return n2
+        return node
+
+    cur = fn
+    for _ in range(depth):
+        out = dict(cur)
+        out['inner'] = [block(c) if c.get('kind') == 'CompoundStmt' else c for c in cur.get('inner', [])]
+        if out == cur:
+            break
+        cur = out
+    return cur
+
+
+def reference_names(cfile):
+    from . import cfront as _cf
+    if _cf._refnames is None:
+        try:
+            import json
+            _cf._refnames = json.load(open(_cf.REFNAMES_FILE))
+        except (OSError, ValueError):
+            _cf._refnames = {}
+    return set((_cf._refnames.get(cfile) or {}).keys())
+
+
+def with_new_helpers_inlined(tu, fn):
+    """fn with the helpers that do not exist in the reference tree inlined (see inline_new_helpers)"""
+    ref = reference_names(tu.cfile)
+    if not ref:
+        return fn
+    return inline_new_helpers(tu, fn, lambda name: name not in ref)
